@@ -254,6 +254,15 @@ HeadSends ==
       [] m.t = "subclosed" -> Has(subIdx, m.sub)
 StRecv == StStep(TRUE)
 
+(* Latitude of C03 / C18, not a step of the tree: an operation whose caller gave its future up while the message was still    *)
+(* queued need not be sent at all (the tree sends it and discards the answer; the statement speaks of calls that put an id on   *)
+(* the wire).  Not part of Next; the trace spec admits it as a silent step.                                                    *)
+StSkipAbandoned ==
+  /\ st = "run" /\ toBack # <<>>
+  /\ LET m == Head(toBack) IN m.t \in {"call", "sub", "batch"} /\ fe[m.h].st = "abandoned"
+  /\ toBack' = Tail(toBack)
+  /\ UNCHANGED <<idCtr, fe, req, subIdx, bat, stream, seen, unsubSent, inq, nPeer, nTok, pushed, fault>> /\ UNCHANGED shutVars
+
 -----------------------------------------------------------------------------
 (* ---------------------------------- the peer (environment) ---------------------------------- *)
 
@@ -416,6 +425,24 @@ RtRecv ==
        LET m == Head(inq)
            cl == IF m.t = "close" THEN {m.sub} ELSE IF m.t = "array" THEN {m.elems[i].sub : i \in {j \in 1..Len(m.elems) : m.elems[j].t = "close"}} ELSE {}
        IN {req[subIdx[x]].h : x \in {y \in cl : Has(subIdx, y)}}
+  /\ UNCHANGED <<idCtr, seen, unsubSent, nPeer, nTok, pushed, fault, st, wd, feOpen, closeCh, wdAlive, cause, stRes, mgrAlive>>
+
+(* Latitude of C05 / C09, not a step of the tree: an array the client rejects (a response id it cannot account for) may be        *)
+(* rejected as a whole - the pushes it carried have no effect - where the tree applies them in order before it finds out.  The  *)
+(* statements say what a stream yields of the notifications the server sent and that everything ends with the cause; they do   *)
+(* not say that the items of the very message that ends the connection are delivered.  Not part of Next; the trace spec admits *)
+(* it as an alternative explanation of a `WireIn`.                                                                             *)
+RtRecvRejectsWhole ==
+  /\ rt = "run" /\ inq # <<>> /\ Head(inq).t = "array"
+  /\ LET E == Head(inq).elems
+         ids == {E[i].id : i \in {j \in 1..Len(E) : E[j].t = "resp"}}
+         lo == CHOOSE i \in ids : \A j \in ids : i <= j
+         hi == (CHOOSE i \in ids : \A j \in ids : i >= j) + 1
+     IN /\ ids # {}
+        /\ IF IdMax \in ids THEN RtFail("invalidId")
+           ELSE ~(\E b \in bat : b.lo = lo /\ b.hi = hi) /\ RtFail("notPending")
+  /\ inq' = Tail(inq)
+  /\ UNCHANGED <<fe, req, subIdx, bat, stream, toBack, fwd, closeSeen>>
   /\ UNCHANGED <<idCtr, seen, unsubSent, nPeer, nTok, pushed, fault, st, wd, feOpen, closeCh, wdAlive, cause, stRes, mgrAlive>>
 
 -----------------------------------------------------------------------------
